@@ -221,6 +221,10 @@ def run_case(desc, ctx):
         # sample carries neither allele there and must be genotyped '.', whatever it was genotyped in another record
         ss = list(ss)
         for t_ in rng.sample(range(ns), 1):
+            # only a sample without which every indel still has a carrier and a non-carrier (otherwise cutting it short could leave
+            # an input without any difference, which `lo` rightly refuses)
+            if not all(any(c for i_, c in enumerate(car) if i_ != t_) and not all(c for i_, c in enumerate(car) if i_ != t_) for car in carriers):
+                continue
             j_ = rng.randrange(len(indels))
             a_ = indels[j_][0]
             anchor = anc[a_ - 2 * k - k:a_ - 2 * k] if rng.random() < 0.5 else anc[a_ + 2 * k + 12:a_ + 3 * k + 12]
